@@ -148,7 +148,18 @@ def d1(cx: Cx, ob: Ob) -> None:
 def d2(cx: Cx, ob: Ob) -> None:
     reader = cx.fn(f"{CONV}.from_jsonld", ob.id)
     rs = cx.summary(reader, ob.id)
-    reader_consts = {x[1] for t, _, _ in rs.all_terms() for x in subterms(t) if is_const(x) and isinstance(x[1], str) and x[1].startswith("@")}
+    reader_consts = set()
+    todo, done = [rs], set()
+    while todo:
+        cur = todo.pop()
+        for t, _, _ in cur.all_terms():
+            for x in subterms(t):
+                if is_const(x) and isinstance(x[1], str) and x[1].startswith("@"):
+                    reader_consts.add(x[1])
+                # helpers the reader delegates to (e.g. a generator over the context items)
+                if op(x) == "func" and x[1] in cx.model.functions and x[1] not in done and len(done) < 12 and not x[1].endswith("._prepare"):
+                    done.add(x[1])
+                    todo.append(cx.summary(cx.model.functions[x[1]], ob.id))
     gt = cx.fn(f"{API}._get_expanded_term", ob.id)
     gs = cx.summary(gt, ob.id)
     rec = ("param", gt.params[0].name)
